@@ -1095,18 +1095,26 @@ where
             TLVValue::U64(a) => self.next_byte(&a.to_le_bytes()),
             TLVValue::F32(a) => self.next_byte(&a.to_le_bytes()),
             TLVValue::F64(a) => self.next_byte(&a.to_le_bytes()),
-            TLVValue::Utf8l(a) | TLVValue::Utf16l(a) | TLVValue::Utf32l(a) => {
+            TLVValue::Utf8l(a)
+            | TLVValue::Utf16l(a)
+            | TLVValue::Utf32l(a)
+            | TLVValue::Utf64l(a) => {
                 let len_len = self.variable_len_len();
                 if self.index < len_len {
-                    self.next_byte(&a.len().to_le_bytes())
+                    // As `u64`, so that all 8 bytes of a 64-bit length field are there
+                    // on 32-bit targets as well
+                    self.next_byte(&(a.len() as u64).to_le_bytes())
                 } else {
                     self.next_byte_offset(len_len, a.as_bytes())
                 }
             }
-            TLVValue::Str8l(a) | TLVValue::Str16l(a) | TLVValue::Str32l(a) => {
+            TLVValue::Str8l(a)
+            | TLVValue::Str16l(a)
+            | TLVValue::Str32l(a)
+            | TLVValue::Str64l(a) => {
                 let len_len = self.variable_len_len();
                 if self.index < len_len {
-                    self.next_byte(&a.len().to_le_bytes())
+                    self.next_byte(&(a.len() as u64).to_le_bytes())
                 } else {
                     self.next_byte_offset(len_len, a)
                 }
